@@ -10,6 +10,37 @@ sys.path.insert(0, VERIF)
 PY = "/venv/bin/python"
 
 CLAIMED = {
+    "C08": {
+        "engine": "session",
+        "technique": "deterministic simulation: seeded warm-interpreter histories of constructions/getter calls with "
+                     "global-RNG, clock and process-restart (PYTHONHASHSEED) faults, bitwise comparison with a "
+                     "cold-interpreter first-call reference computed twice",
+        "text": "Seeded exploration of call histories: every observation (grid arrays, sparse matrices incl. entry "
+                "order, volumes) in every history must be bit-identical to the value a fresh interpreter returns as the "
+                "first call on a fresh object; the reference is computed in two cold interpreters with different hash "
+                "seeds, initial RNG states and order, which must agree (cross-process clause); prefix clause compared "
+                "bitwise for the polytope algorithms. Sampling of histories, not proof - the history is the "
+                "quantifier, which a fixed unit test cannot vary.",
+        "note": "Trusted: numpy/scipy/Qhull determinism for identical input, sha256 digests, the getter list in "
+                "sim/session.py. Only call-level interleavings (no pre-emption inside a library call). Bounds: quick "
+                "3-D N<=60, 4-D N<=17; thorough 3-D N<=200, 4-D N<=60.",
+        "design_ref": "DESIGN.md section 4, C08",
+    },
+    "C18": {
+        "engine": "session",
+        "technique": "deterministic simulation: seeded subdivision histories of 1-2 interleaved polytopes with "
+                     "global-RNG faults, invariants against an independently built ideal lattice and an append-only "
+                     "index log after every operation",
+        "text": "Seeded exploration of subdivision histories (divide / getters / oversized requests, two instances "
+                "interleaved, RNG perturbed between any two operations); after every operation the node set must equal "
+                "the independently constructed lattice, be closed under negation, keep every (index,node) pair ever "
+                "observed, order levels, and give exact prefix / half selections. The history space is small and the "
+                "seeded search covers most of it; evidence counts distinct histories.",
+        "note": "Trusted: the ideal-lattice construction in sim/session.py (meshgrid boundary / barycentric face "
+                "lattice), KD-tree matching at 1e-9. Bounds: quick ico/cube3D level 3, cube4D level 1; thorough level "
+                "4 and cube4D level 2.",
+        "design_ref": "DESIGN.md section 4, C18",
+    },
     "C13": {
         "engine": "merger",
         "technique": "deterministic simulation: seeded merge/delete/cut-and-merge histories with message faults on the "
